@@ -508,7 +508,14 @@ nodesLoop:
 						if !tcase.Nil() {
 							tcase.setValue(texpr.Type)
 						}
-						tcase = &typeInfo{Type: texpr.Type, Constant: c}
+						if c == nil && tcase.IsConstant() {
+							// The tag has an interface type: the constant is
+							// converted to its default type.
+							c, _ = tcase.Constant.representedBy(tcase.Type)
+							tcase = &typeInfo{Type: tcase.Type, Constant: c}
+						} else {
+							tcase = &typeInfo{Type: texpr.Type, Constant: c}
+						}
 					} else {
 						if tc.isAssignableTo(tcase, ex, texpr.Type) != nil && tc.isAssignableTo(texpr, ex, tcase.Type) != nil {
 							panic(tc.errorf(cas, "invalid case %s in switch%s (mismatched types %s and %s)", ex, ne, tcase.ShortString(), texpr.ShortString()))
@@ -521,7 +528,7 @@ nodesLoop:
 						}
 						tcase.setValue(nil)
 					}
-					if tcase.IsConstant() && texpr.Type.Kind() != reflect.Bool {
+					if tcase.IsConstant() && tcase.Type.Kind() != reflect.Bool {
 						// Check for duplicates.
 						value := tc.typedValue(tcase, tcase.Type)
 						if pos, ok := positionOf[value]; ok {
